@@ -662,6 +662,8 @@ def c08_shapes(tier):
     for gmode in (1, 2, 4, 5, 6):
         for a, b in ((0, 0), (1, 1), (2, 3), (2, 4), (0, 5), (2, 7), (1, 8), (0, 9)):
             shapes.append(('hx_pa_group_keys', [a, b, gmode], 'c08/key forms/%d-%d/group mode %d' % (a, b, gmode)))
+    for m in (0, 1, 2, 3, 4, 8, 9, 10, 11, 12):
+        shapes.append(('hx_pa_group_subkey', [m, 0], 'c08/sub-group key in another member handler/%d' % m))
     shapes.append(('hx_pa_group_dup', [0, 0], 'c08/duplicate key short'))
     shapes.append(('hx_pa_group_dup', [1, 0], 'c08/duplicate key long'))
     shapes.append(('hx_pa_group_dup', [2, 0], 'c08/distinct keys'))
@@ -683,6 +685,10 @@ def c18_shapes(tier):
         shapes.append(('hx_help_arg_group', [k, 0], 'c18/help-arg-group/%d' % k))
     for bflags in range(8):
         shapes.append(('hx_usage_extras', [bflags, 0], 'c18/usage-extras/b%d' % bflags))
+    shapes.append(('hx_usage_nodesc', [0, 0], 'c18/usage-empty-description'))
+    # the usage printed a second time with other display settings
+    for nargs, display in ((2, 4), (2, 8), (3, 4), (3, 8), (3, 0), (1, 5), (2, 10)):
+        shapes.append(('hx_usage', [nargs, display | 16], 'c18/usage-second-print/args%d/hidden%d/deprecated%d/%s' % (nargs, display & 1, (display >> 1) & 1, ('all', 'short', 'long')[display >> 2])))
     for k in range(6):
         for order in (0, 1):
             shapes.append(('hx_help_arg_prefix', [k, order], 'c18/help-arg-prefix/%d/order%d' % (k, order)))
